@@ -538,3 +538,101 @@ class C05(ServerProp):
     def shrink(self, line):
         t = line.split(" ")
         return [" ".join(t[:i] + t[i + 1:]) for i in range(5, len(t))] if len(t) > 6 else []
+
+
+class C12(ServerProp):
+    id = "C12"
+    module = "Tftp.Props.C12"
+    nroots = 8
+    rule = ("K scripted clients (K = 2..4 quick, up to 9 thorough) against the in-process server — downloads, uploads to distinct names, intruders sending ACK/DATA/ERROR/OACK to the "
+            "listening port from endpoints that own no transfer — interleaved turn by turn under a schedule: all schedules of length 6 for K = 2 short transfers, seeded random schedules "
+            "beyond, in both port modes; per client the outcome (bytes received / file stored / ERROR code) and the source-port class of every server datagram are compared with the "
+            "solo prediction; non-trivial = distinct (clients, schedule) with at least two clients")
+
+    def gen_clients(self, rng, k):
+        cl = []
+        files = {"a": "gen:100:1", "b": "gen:3000:2", "c": "gen:16:3", "e": "-", "sub/d": "gen:700:4"}
+        ups = 0
+        for i in range(k):
+            r = rng.random()
+            if r < 0.45:
+                name = rng.choice(list(files) + ["missing"])
+                cl.append("d:%s:%d:%d" % (name, rng.choice([8, 16, 512, 1024]), rng.choice([1, 2, 3, 8])))
+            elif r < 0.8:
+                ups += 1
+                cl.append("u:up%d:%d:%d:gen:%d:%d" % (ups, rng.choice([8, 16, 512]), rng.choice([1, 2, 4]), rng.choice([0, 5, 16, 70, 1200]), rng.randint(0, 255)))
+            else:
+                cl.append("i:" + rng.choice(["ack", "data", "err", "oack"]))
+        fs = ",".join("srv/%s=%s" % (n, c) for n, c in files.items())
+        return cl, fs
+
+    def generate(self, tier, rng):
+        lines = []
+        i = 0
+        # K = 2: every schedule of length 6
+        import itertools
+        cl = ["d:c:8:1", "u:up1:8:2:gen:20:9"]
+        fs = "srv/c=gen:16:3"
+        scheds = ["".join(s) for s in itertools.product("01", repeat=6)]
+        if tier == "quick":
+            scheds = scheds[::2]
+        for flags in ["-", "s"]:
+            for s in scheds:
+                lines.append("multi %s %s %s %s %s" % (self.root(i), flags, fs, s, " ".join(cl)))
+                i += 1
+        n = 250 if tier == "quick" else 6000
+        for _ in range(n):
+            k = rng.randint(2, 4 if tier == "quick" else 9)
+            cl, fs = self.gen_clients(rng, k)
+            sched = "".join(rng.choice("0123456789"[:k]) for _ in range(rng.randint(0, 6 * k)))
+            flags = rng.choice(["-", "s", "-", "s", "r", "sr"])
+            lines.append("multi %s %s %s %s %s" % (self.root(i), flags, fs, sched or "0", " ".join(cl)))
+            i += 1
+        return lines
+
+    def nontrivial(self, line, impl):
+        return impl.startswith("c0=")
+
+    def classify(self, line, impl, res):
+        t = line.split(" ")
+        res.count("K=%d" % (len(t) - 5))
+        res.count("flags:" + t[2])
+        for c in t[5:]:
+            res.count("client:" + c[0])
+
+    def oracle(self, line, impl):
+        if impl in ("abort", "panic") or not impl.startswith("c0="):
+            return ("server died or no observation: " + impl[:60], "died")
+        t = line.split(" ")
+        c = Case(" ".join(t[:4] + ["-"]))
+        single = "s" in t[2]
+        outs = dict(x.split("=", 1) for x in impl.split(" ; ")[0].split(" "))
+        for k, spec in enumerate(t[5:]):
+            got = outs.get("c%d" % k, "")
+            p = spec.split(":")
+            if p[0] == "d":
+                f = c.files.get("srv/" + p[1])
+                if f is not None:
+                    want = "ok:%d:%d" % (len(f), fnv(f))
+                    if not got.startswith(want):
+                        return ("client %d downloading %s did not receive exactly its own file (%s)" % (k, p[1], got), "download-wrong")
+                    cls = got.split(":")[3]
+                    if single and cls != "L":
+                        return ("single-port mode: a server datagram did not originate from the listening port", "single-port-source")
+                    if not single and cls != "T":
+                        return ("multi-port mode: the transfer was not served from its own port", "multi-port-source")
+                elif not got.startswith("err:1"):
+                    return ("download of a missing file not refused with ERROR 1 (%s)" % got, "missing")
+            elif p[0] == "u":
+                if "r" in t[2]:
+                    if not got.startswith("err:2"):
+                        return ("upload in read-only mode not refused", "read-only")
+                    continue
+                data = content(":".join(p[4:]))
+                item = "srv/%s:%d:%d" % (p[1], len(data), fnv(data))
+                if not got.startswith("ok") or item not in impl.split(" ; fs=")[1].split(","):
+                    return ("client %d's upload %s is not stored with exactly its own content (%s)" % (k, p[1], got), "upload-wrong")
+            elif p[0] == "i":
+                if not got.startswith("E"):
+                    return ("a non-request packet from an endpoint that owns no transfer was not answered with an ERROR (%s)" % got, "intruder-no-error")
+        return None
